@@ -1,7 +1,7 @@
 """C01 — Coq theorems over coq/Model/Pool.v (lists regenerated from the source) + simulation of the real executor code with monitors."""
 from checks import simcommon as S
 
-FAMILIES = ['plain', 'kill', 'fatal', 'timeout', 'shutdown', 'killshutdown', 'resize', 'latekill', 'full', 'cancelfail', 'mix', 'cbreuse']
+FAMILIES = ['plain', 'kill', 'fatal', 'timeout', 'shutdown', 'killshutdown', 'resize', 'latekill', 'full', 'cancelfail', 'mix', 'cbreuse', 'cancelshutdown']
 PER_FAMILY = (150, 4000)
 
 
@@ -38,7 +38,7 @@ def run(ctx):
                                                  "stdout_tail": res["stdout"][-1500:], "how_to_replay": "PYTHONPATH=/repo /venv/bin/python findings/H18_real.py"})
         ctx.violations.append(("real executor: shutdown() still blocked 20 s after 16384 wake-ups piled up while the manager was busy: "
                                + str(got)[:120], rp, False))
-    return S.sim_check(ctx, FAMILIES, FAMILIES, PER_FAMILY, S.SIM_ASSUME, proof=PROOF, extra_cov={"wakeup_pipe_scenario": got})
+    return S.sim_check(ctx, FAMILIES, FAMILIES, PER_FAMILY, S.SIM_ASSUME, proof=PROOF, extra_cov={"wakeup_pipe_scenario": got}, weights={'cancelshutdown': 3})
 
 
 def replay(ctx, path):
